@@ -10,7 +10,11 @@ GEN_KEYS = ['escape', 'canon']
 M = 'MorphKgc.Props.C01'
 THEOREMS = [{'name': f'Props.C01.{n}', 'module': M} for n in [
     'C01_F1_escaped_literal_taken_for_reference', 'C01_F1_spec', 'C01_F3_constant_unescaped', 'C01_F3_constant_reference',
-    'C01_F4_all_constant_rule_ignores_rows']]
+    'C01_F4_all_constant_rule_ignores_rows', 'C01_template_subst', 'C01_escape_chain', 'C01_rule_refinement',
+    'C01_refinement_partial', 'C01_no_raise', 'C01_no_extra', 'C01_no_missing']] + [
+    {'name': 'Model.materializeTemplate_eq_subst', 'module': 'MorphKgc.Lemmas.Template'},
+    {'name': 'Model.refs_of_render', 'module': 'MorphKgc.Lemmas.Template'},
+    {'name': 'Model.mem_evalRule_plain', 'module': 'MorphKgc.Lemmas.EvalRule'}]
 RULE = ('abstract documents of the core fragment (1-3 triples maps, 0-3 predicate-object maps with 1-2 predicate/object/graph maps, '
         'constant/template/reference term maps, IRI/blank-node/literal term types, language tags, datatypes, classes, escaped braces) x '
         'CSV tables of 0-5 rows over a Unicode alphabet with NA tokens; each case is evaluated by the real engine, by Model.evalAll on the '
